@@ -26,6 +26,7 @@ package main
 // A histogram of command names and reply kinds is printed to stderr at the end.
 
 import (
+	"time"
 	"bufio"
 	"flag"
 	"fmt"
@@ -257,6 +258,9 @@ func hexDecode(s string) ([]byte, error) {
 }
 
 // wireStep sends one request on one connection and prints its line.
+// wireHangAfter: a request that has not returned after this long counts as hanging (C14).
+const wireHangAfter = 20 * time.Second
+
 func wireStep(db *redka.DB, h redcon.HandlerFunc, c *wireConn, req [][]byte) {
 	seq++
 	fail := func(where string, err error) {
@@ -281,8 +285,11 @@ func wireStep(db *redka.DB, h redcon.HandlerFunc, c *wireConn, req [][]byte) {
 	}
 	c.toks = nil
 	panicked := false
+	hung := false
 	t0 := nowMs()
-	func() {
+	done := make(chan struct{})
+	go func() {
+		defer close(done)
 		defer func() {
 			if r := recover(); r != nil {
 				panicked = true
@@ -290,8 +297,27 @@ func wireStep(db *redka.DB, h redcon.HandlerFunc, c *wireConn, req [][]byte) {
 		}()
 		h(c, redcon.Command{Args: req})
 	}()
+	select {
+	case <-done:
+	case <-time.After(wireHangAfter):
+		// the request never returned: a client of the real server would wait forever (and, when the
+		// handler sits on the single read-write connection, so would every other writer)
+		hung = true
+	}
 	t1 := nowMs()
 	lastT1 = t1
+	if hung {
+		var rb strings.Builder
+		fmt.Fprintf(&rb, "R %d", len(req))
+		for _, a := range req {
+			rb.WriteString(" " + hx(a))
+		}
+		fmt.Fprintf(out, "%d %d wire | %s | %s | %s | %s | %s | %s\n", seq, t1,
+			pre.render(ident), preState, rb.String(), ". !HANG", pre.render(ident), preState)
+		wstats.panics = append(wstats.panics, fmt.Sprintf("seq %d: HANG %q", seq, req))
+		out.Flush()
+		os.Exit(0) // nothing more can be learnt from this process: its database is locked
+	}
 	post, err := takeDump(db.RW)
 	if err != nil {
 		fail("post-dump", err)
